@@ -454,6 +454,25 @@ pub fn copies(q: &QRCode) -> Vec<(&'static str, Box<QRCode>)> {
     out
 }
 
+/// Every `Clone` copy of a symbol (see `copies`) equals it byte for byte: the whole backing array (modules and labels,
+/// inside and outside the square), the side and the four reported fields. Returns a description of the first difference.
+pub fn copy_differs(q: &QRCode) -> Option<String> {
+    for (what, c) in copies(q) {
+        if c.size != q.size {
+            return Some(format!("{}: size {} instead of {}", what, c.size, q.size));
+        }
+        if let Some(i) = (0..q.data.len()).find(|&i| c.data[i].0 != q.data[i].0) {
+            let n = q.size.max(1);
+            return Some(format!("{}: backing array element {} (row {}, col {}{}) is {:#04x}, the original has {:#04x}", what, i, i / n, i % n, if i >= n * n { ", outside the symbol" } else { "" }, c.data[i].0, q.data[i].0));
+        }
+        let f = |x: &QRCode| (x.version.map(version_no), x.ecl.map(|e| level_of(e) as u8), x.mask.map(mask_no), x.mode.map(|m| mode_of(m) as u8));
+        if f(&c) != f(q) {
+            return Some(format!("{}: fields {:?} instead of {:?}", what, f(&c), f(q)));
+        }
+    }
+    None
+}
+
 pub fn recycled_copy(q: &QRCode) -> Box<QRCode> {
     let mut slot = LARGE_SLOT.with(|l| l.clone());
     QRCode::clone_from(&mut slot, q);
